@@ -206,3 +206,179 @@ package eio
 //@   callsite (*serverSocket).close
 //@     requires asked && tn == name [C07.srv.superseded]
 //@     requires arg0 == (err == nil ? ReasonTransportClose : ReasonTransportError) [C06.eio.transport.reason]
+
+// ---------------------------------------------------------------------------------------------
+// C07 (server). The swap is one critical section of transportMu (write lock): inside it the transport pointer is
+// replaced by the new transport, the OLD transport is discarded and drained, and every drained packet except NOOP is
+// re-sent on the NEW transport, one by one, in queue order - nothing is skipped, nothing else is sent. Send (read lock)
+// therefore goes entirely to one transport or the other.
+//@ define nonnoop(qp []*parser.Packet, n int) int = n <= 0 ? 0 : nonnoop(qp, n - 1) + (qp[n-1].Type != parser.PacketTypeNoop ? 1 : 0)
+
+//@ func (*serverSocket).upgradeTo
+//@   opt safety off
+//@   requires s != nil && t != nil && t != s.transport
+//@   ghost swapped int = 0
+//@   ghost oldt ServerTransport = nil
+//@   ghost discarded int = 0
+//@   ghost drained int = 0
+//@   ghost qp []*parser.Packet = nil
+//@   ghost resent int = 0
+//@   ghost lastidx int = 0 - 1
+//@   callsite Set skip
+//@     requires swapped == 0 [C07.srv.callbacks.before.swap]
+//@   onstore transport
+//@     requires recv == s && wheld(s.transportMu) && value == t && swapped == 0 [C07.srv.swap.locked]
+//@     update oldt = s.transport
+//@     update swapped = swapped + 1
+//@   callsite ServerTransport.Discard skip
+//@     requires wheld(s.transportMu) && recv == (swapped == 1 ? oldt : s.transport) && recv != t [C07.srv.discard.old.locked]
+//@     update discarded = discarded + 1
+//@   callsite ServerTransport.QueuedPackets skip
+//@     requires wheld(s.transportMu) && swapped == 1 && recv == oldt && drained == 0 [C07.srv.drain.old.locked]
+//@     update drained = drained + 1
+//@     updateafter qp = result
+//@   callsite ServerTransport.Send skip
+//@     requires wheld(s.transportMu) && swapped == 1 && drained == 1 && recv == t [C07.srv.resend.on.new.locked]
+//@     requires len(arg0) == 1 && rangeindex > lastidx && rangeindex < len(qp) && arg0[0] == qp[rangeindex] && qp[rangeindex].Type != parser.PacketTypeNoop [C07.srv.resend.each.in.order]
+//@     update resent = resent + 1
+//@     update lastidx = rangeindex
+//@   callsite ServerTransport.Name skip
+//@   loop 0 invariant rangelen == len(qp) && lastidx <= rangeindex && resent == nonnoop(qp, rangeindex + 1) && swapped == 1 && drained == 1 [C07.srv.resend.inv]
+//@   ensures swapped == 1 && discarded == 1 && drained == 1 && s.transport == t [C07.srv.swap.once]
+//@   ensures resent == nonnoop(qp, len(qp)) [C07.srv.resend.all]
+//@   ensures !held(s.transportMu) [C07.srv.swap.released]
+
+// Sending takes the read lock for the whole hand-over to the current transport.
+//@ func (*serverSocket).Send
+//@   opt safety off
+//@   callsite ServerTransport.Send skip
+//@     requires held(s.transportMu) && recv == s.transport && arg0 == packets [C07.srv.send.locked]
+
+// The probe handler of an upgrade candidate: PING(probe) is answered with PONG(probe) on the candidate (and a NOOP
+// releases the pending poll); UPGRADE marks the attempt done and swaps; anything else closes ONLY the candidate and
+// reports an error - the session itself is never closed from here.
+//@ func (*Server).maybeUpgrade$1
+//@   opt safety off
+//@   requires packet != nil
+//@   ghost donemark int = 0
+//@   ghost swaps int = 0
+//@   ghost candclosed int = 0
+//@   ghost errs int = 0
+//@   callsite Do skip
+//@     update donemark = donemark + 1
+//@   callsite (*serverSocket).upgradeTo skip
+//@     requires packet.Type == parser.PacketTypeUpgrade && donemark == 1 && arg0 == t && arg1 == c [C07.srv.probe.upgrade]
+//@     update swaps = swaps + 1
+//@   callsite ServerTransport.Close skip
+//@     requires recv == t && packet.Type != parser.PacketTypeUpgrade && packet.Type != parser.PacketTypePing [C07.srv.probe.invalid.closes.candidate]
+//@     update candclosed = candclosed + 1
+//@   callsite ServerTransport.Send skip
+//@     requires recv == t && packet.Type == parser.PacketTypePing && len(arg0) == 1 && arg0[0].Type == parser.PacketTypePong [C07.srv.probe.pong]
+//@   callsite (*serverSocket).onError skip
+//@     update errs = errs + 1
+//@   callsite (*serverSocket).close
+//@     requires false [C07.srv.probe.never.closes.session]
+//@   callsite (*serverSocket).Close
+//@     requires false [C07.srv.probe.never.closes.session.api]
+//@   ensures packet.Type == parser.PacketTypeUpgrade ==> swaps == 1 && candclosed == 0 [C07.srv.probe.upgrade.once]
+//@   ensures packet.Type != parser.PacketTypeUpgrade && packet.Type != parser.PacketTypePing ==> candclosed == 1 && errs == 1 && swaps == 0 [C07.srv.probe.invalid]
+
+// C07 (client). Same swap discipline; the UPGRADE packet is the first (and only) thing sent on the new transport
+// inside the critical section, and upgradeDone is started once.
+//@ func (*clientSocket).finishUpgradeTo
+//@   opt safety off
+//@   requires s != nil && t != nil
+//@   ghost swapped int = 0
+//@   ghost oldt ClientTransport = nil
+//@   ghost discarded int = 0
+//@   ghost sent int = 0
+//@   ghost done int = 0
+//@   ghost mkerr bool = false
+//@   callsite NewPacket
+//@     updateafter mkerr = result1 != nil
+//@   callsite (*clientSocket).onError skip
+//@   callsite Set skip
+//@     requires swapped == 0 [C07.cli.callbacks.before.swap]
+//@   onstore transport
+//@     requires recv == s && wheld(s.transportMu) && value == t && swapped == 0 [C07.cli.swap.locked]
+//@     update oldt = s.transport
+//@     update swapped = swapped + 1
+//@   callsite ClientTransport.Discard skip
+//@     requires wheld(s.transportMu) && swapped == 1 && recv == oldt [C07.cli.discard.old.locked]
+//@     update discarded = discarded + 1
+//@   callsite ClientTransport.Send skip
+//@     requires wheld(s.transportMu) && swapped == 1 && recv == t && sent == 0 && len(arg0) == 1 && arg0[0] != nil && arg0[0].Type == parser.PacketTypeUpgrade [C07.cli.upgrade.packet.first]
+//@     update sent = sent + 1
+//@   callsite ClientTransport.Name skip
+//@   callsite upgradeDone go
+//@     requires sent == 1 [C07.cli.done.after.upgrade.packet]
+//@     update done = done + 1
+//@   ensures !mkerr ==> swapped == 1 && discarded == 1 && sent == 1 && s.transport == t [C07.cli.swap.once]
+//@   ensures !mkerr ==> done == 1 [C07.cli.done.once]
+//@   ensures mkerr ==> swapped == 0 && sent == 0 && s.transport == old(s.transport) [C07.cli.swap.failed.keeps]
+//@   ensures !held(s.transportMu) [C07.cli.swap.released]
+
+// The client's probe handler: PONG(probe) marks the attempt done BEFORE the swap starts (so the attempt's timeout
+// cannot close a transport that is about to become current); anything else closes only the candidate.
+//@ func (*clientSocket).tryUpgradeTo$1
+//@   opt safety off
+//@   requires packet != nil
+//@   ghost donemark int = 0
+//@   ghost swaps int = 0
+//@   ghost candclosed int = 0
+//@   callsite Do skip
+//@     update donemark = donemark + 1
+//@   callsite (*clientSocket).finishUpgradeTo skip
+//@     requires packet.Type == parser.PacketTypePong && donemark == 1 && candclosed == 0 && arg0 == t && arg1 == c [C07.cli.probe.done.before.swap]
+//@     update swaps = swaps + 1
+//@   callsite ClientTransport.Close skip
+//@     requires recv == t && swaps == 0 [C07.cli.probe.closes.candidate.only]
+//@     update candclosed = candclosed + 1
+//@   callsite (*clientSocket).onError skip
+//@   callsite (*clientSocket).close
+//@     requires false [C07.cli.probe.never.closes.session]
+//@   ensures packet.Type != parser.PacketTypePong ==> candclosed == 1 && swaps == 0 [C07.cli.probe.invalid]
+//@   ensures swaps + candclosed == 1 [C07.cli.probe.one.outcome]
+
+// A failed or timed-out attempt closes the candidate and reports an error; the session stays on its transport.
+//@ func (*clientSocket).tryUpgradeTo
+//@   opt safety off
+//@   requires s != nil && t != nil && c != nil
+//@   ghost candclosed int = 0
+//@   callsite Set skip
+//@   callsite ClientTransport.Handshake
+//@   callsite ClientTransport.Run go
+//@   callsite ClientTransport.Send go
+//@   callsite ClientTransport.Close skip
+//@     requires recv == t [C07.cli.fail.closes.candidate.only]
+//@     update candclosed = candclosed + 1
+//@   callsite (*clientSocket).onError skip
+//@   callsite (*clientSocket).close
+//@     requires false [C07.cli.fail.never.closes.session]
+//@   onstore transport
+//@     requires false [C07.cli.fail.keeps.transport]
+//@   ensures !ok ==> candclosed == 1 [C07.cli.fail.keeps]
+//@   ensures ok ==> candclosed == 0 [C07.cli.ok.keeps.candidate]
+
+//@ func (*Server).maybeUpgrade$3
+//@   opt safety off
+//@   callsite ServerTransport.Close skip
+//@     requires recv == t [C07.srv.timeout.closes.candidate.only]
+//@   callsite (*serverSocket).onError skip
+//@   callsite (*serverSocket).close
+//@     requires false [C07.srv.timeout.never.closes.session]
+//@   callsite (*serverSocket).Close
+//@     requires false [C07.srv.timeout.never.closes.session.api]
+
+// A transport that reports its close ends the session only if it is still the current one.
+//@ func (*clientSocket).onTransportClose$1
+//@   opt safety off
+//@   requires s != nil
+//@   ghost tn string = ""
+//@   ghost asked bool = false
+//@   callsite (*clientSocket).TransportName
+//@     updateafter tn = result
+//@     updateafter asked = true
+//@   callsite (*clientSocket).close
+//@     requires asked && tn == name [C07.cli.superseded]
+//@     requires arg0 == (err == nil ? ReasonTransportClose : ReasonTransportError) [C06.eio.cli.transport.reason]
